@@ -1,5 +1,41 @@
-(* Client/Sound_Ka.v — C33, the keep-alive loop of the client library (Client/ClKeepalive.v, monitor
-   Checkers/ChkCl4.v). *)
+(* Client/Sound_Ka.v — C33, the keep-alive loop of the client library (model Client/ClKeepalive.v, monitor
+   Checkers/ChkCl4.v).
+
+   Part 1, refutations by computation (cfg33: KeepAlive 2 s, RetryDelay 1 s, RetryCount 2):
+     C33_refuted_retransmission   h_retransmit is inside the model and the monitor reports exactly [(33,2)]: a
+                                  keep-alive ping begun at 2010 is retransmitted at 3010 while the client sleeps;
+     C33_refuted_ping_call_fails  h_victim is inside the model and the monitor reports (33,3): the loop's ping takes
+                                  the PINGREQ slot of the API's Ping call 2, which fails with RNoRetries at 4510
+                                  (C33_ping_call_fails_outputs);
+     C33_ordinary                 connect, three answered keep-alive pings, a Sleep cycle: inside the model, no
+                                  failure, the loop's pings are 2010, 4010, 6010.
+
+   Part 2, the loop STARTS pings only while the client is active:
+     KInv cfg k                   the wrapper invariant (KInv_init: it holds for ka_init): ka_seen k is the client's
+                                  state; while the loop has not returned, the group context is not cancelled, the
+                                  next tick is not in the past, the ticker runs (or a tick is pending) with an empty
+                                  state channel only if the client is active, a change in the channel is the last
+                                  one, and an idle loop has nothing to take (Settled);
+     KInv_step                    0 < k_keepalive cfg -> KInv cfg k -> ka_excl (fst (ka_step cfg k ev)) = false ->
+                                  KInv cfg (fst (ka_step cfg k ev));
+     ka_ping_only_when_active     under the same hypotheses every KoPing t id of the step has
+                                  state_at (ka_seen k) (ko_changes outputs) t = Active;
+     ka_ping_only_when_active_history   the same for every step of every history with ka_modelled = true
+                                  (ka_run_all cfg (pings_while_active cfg) ka_init evs).
+   The statements are proved as given (no hypothesis added).  Besides "cl_now of the result" the proof needs
+   three facts about cl_step (Sound_Ka_aux.v), because state_at looks at ALL changes of the step with a time
+   <= t, also those emitted after the ping: (a) before cl_deadline an advance does nothing (the tick itself
+   cannot change the state); (b) a CAdv step returns ROk to nobody unless it cancels the group (so no ping
+   starts inside the client's part of an advance); (c) after a ping at instant t only retry timers can be due
+   at t (all others are later than the tick, the ping arms a retry timer only) and retry timers do not change
+   the state, so no state change at instant t follows the ping (with RetryDelay 0 the retries do fire at t).
+
+   Part 3 (kmon_gap_sound, clause (33,1)) is NOT proved here.  A first version of the monitor kept km_since
+   across the death of the client inside one step and reported a gap for a timer of a left-over sleep
+   transaction firing after the client's exit (found here); kmon_step now ignores what happens after the
+   group's cancellation (C33_gap_after_death_not_judged below shows the former false alarm accepted).  A proof for steps of a live client needs a frame invariant
+   of cl_step for the loop's transaction object and its retry timer, the time order of the CoSn outputs, and
+   the commutation of merge_marks with the emission order. *)
 From stdpp Require Import base option list numbers fin_maps nmap.
 From Coq Require Import Lia ZArith ZifyN ZifyNat ZifyBool.
 From RecordUpdate Require Import RecordSet.
@@ -140,3 +176,593 @@ Proof.
   unfold ab1. cbv zeta. change (ka_busy (k <| ka_cl := s' |>)) with (ka_busy k).
   destruct (internal_ret (ka_busy k) os) as [[]|] eqn:Ei; constructor; cbn; try reflexivity; try assumption; try apply Same_refl; auto.
 Qed.
+
+Lemma bool_contra (a b : bool) : (a = true -> b = true) -> b = false -> a = false.
+Proof. destruct a; [|reflexivity]. intros H E. rewrite H in E by reflexivity. discriminate E. Qed.
+
+Lemma absorb_spec k s' os :
+  KInv' k -> (forall t, ka_done k = false -> ka_next k = Some t -> cl_now s' <= t) ->
+  ka_excl (fst (ka_absorb cfg k (s', os))) = false ->
+  KInv' (fst (ka_absorb cfg k (s', os))) /\
+  cl_now (ka_cl (fst (ka_absorb cfg k (s', os)))) = cl_now s' /\
+  Same s' (ka_cl (fst (ka_absorb cfg k (s', os)))) /\
+  (exists chg, snd (ka_absorb cfg k (s', os)) = map KoCl (user_outs os) ++ chg /\
+      (chg = [] /\ ka_seen (fst (ka_absorb cfg k (s', os))) = ka_seen k \/
+       chg = [KoState (cl_now s') (ka_seen (fst (ka_absorb cfg k (s', os))))] /\
+       ka_seen (fst (ka_absorb cfg k (s', os))) <> ka_seen k)) /\
+  (ka_done k = true -> ka_done (fst (ka_absorb cfg k (s', os))) = true) /\
+  ka_excl k = false /\
+  (ka_done (fst (ka_absorb cfg k (s', os))) = false -> Settled k ->
+   (internal_ret (ka_busy k) os = Some ROk -> canc s') -> Settled (fst (ka_absorb cfg k (s', os)))).
+Proof.
+  intros [Hs Hl] Hnow. rewrite absorb_eq. cbv zeta.
+  pose proof (ab1_facts k s' os) as A. set (k1 := ab1 k s' os) in *. clearbody k1.
+  destruct A as [A1 A2 A3 A4 A5 A6 A7 A8 A9 A10].
+  unfold ab2. destruct (cl_cancelled (ka_cl k1)) as [te|] eqn:Ec; cbn [is_some].
+  - (* cancelled: the loop has returned *)
+    cbn. destruct (cstate_eqb (cl_st (ka_cl k1)) (ka_seen k1)) eqn:Eq.
+    + cbn. intros Hx. split; [split; [symmetry; apply cstate_eqb_true, Eq|discriminate]|].
+      split; [exact A6|]. split; [exact A7|]. split.
+      { exists []. rewrite app_nil_r. split; [reflexivity|]. left. split; [reflexivity|exact A1]. }
+      split; [reflexivity|]. split; [congruence|]. discriminate.
+    + unfold ab3. cbv zeta. cbn. intros Hx. split; [split; [reflexivity|discriminate]|].
+      split; [exact A6|]. split; [exact A7|]. split.
+      { exists [KoState (cl_now (ka_cl k1)) (cl_st (ka_cl k1))]. split; [reflexivity|]. right. rewrite A6. split; [reflexivity|]. rewrite <- A1. apply cstate_eqb_false, Eq. }
+      split; [reflexivity|]. split; [congruence|]. discriminate.
+  - destruct (cstate_eqb (cl_st (ka_cl k1)) (ka_seen k1)) eqn:Eq.
+    + (* no state change *)
+      cbn [fst snd]. intros Hx. split.
+      { split; [symmetry; apply cstate_eqb_true, Eq|]. intros Hd.
+        assert (Hd0 : ka_done k = false) by (exact (bool_contra _ _ A9 Hd)).
+        destruct (Hl Hd0) as (L1 & L2 & L3). split; [exact Ec|]. split.
+        - intros t Ht. rewrite A6. apply Hnow; [exact Hd0|congruence].
+        - unfold TickerOK in *. rewrite A4, A2, A3, A1. exact L3. }
+      split; [exact A6|]. split; [exact A7|]. split.
+      { exists []. rewrite app_nil_r. split; [reflexivity|]. left. split; [reflexivity|exact A1]. }
+      split; [exact A9|]. split; [congruence|].
+      intros Hd Hst Hr Hb. unfold Settled in Hst. rewrite A4, A3.
+      destruct A10 as [(B1 & B2 & B3)|[(B1 & B2 & B3)|(B1 & B2)]].
+      * apply Hst. congruence.
+      * exfalso. apply (A8 (Hr B3)). exact Ec.
+      * congruence.
+    + (* a state change *)
+      unfold ab3. cbv zeta. cbn [ka_done ka_busy ka_chan]. cbn. rewrite ka_nz, orb_false_r.
+      destruct (ka_done k1) eqn:Hd1.
+      { cbn. intros Hx. split; [split; [reflexivity|intros Hd; cbn in Hd; congruence]|].
+        split; [exact A6|]. split; [exact A7|]. split.
+        { exists [KoState (cl_now (ka_cl k1)) (cl_st (ka_cl k1))]. split; [reflexivity|]. right. rewrite A6. split; [reflexivity|]. rewrite <- A1. apply cstate_eqb_false, Eq. }
+        split; [intros _; exact Hd1|]. split; [congruence|]. intros Hd; cbn in Hd; congruence. }
+      assert (Hd0 : ka_done k = false) by (exact (bool_contra _ _ A9 eq_refl)).
+      destruct (Hl Hd0) as (L1 & L2 & L3).
+      destruct (ka_busy k1) as [b|] eqn:Hb1; [destruct (ka_chan k1) as [c|] eqn:Hc1|].
+      * cbn. intros Hx. discriminate Hx.
+      * cbn. intros Hx. split.
+        { split; [reflexivity|]. intros _. split; [exact Ec|]. split.
+          - intros t Ht. cbn in Ht |- *. rewrite A6. apply Hnow; [exact Hd0|congruence].
+          - unfold TickerOK. cbn. reflexivity. }
+        split; [exact A6|]. split; [exact A7|]. split.
+        { exists [KoState (cl_now (ka_cl k1)) (cl_st (ka_cl k1))]. split; [reflexivity|]. right. rewrite A6. split; [reflexivity|]. rewrite <- A1. apply cstate_eqb_false, Eq. }
+        split; [congruence|]. split; [congruence|]. intros _ _ _ Hb. cbn in Hb. congruence.
+      * unfold ka_take_change. cbn. intros Hx. split.
+        { split; [reflexivity|]. intros _. split; [exact Ec|]. split.
+          - intros t Ht. cbn in Ht |- *. destruct (cstate_eqb (cl_st (ka_cl k1)) Active); [|discriminate Ht]. injection Ht as <-. lia.
+          - unfold TickerOK. cbn. intros [H|H]; [|discriminate H].
+            destruct (cstate_eqb (cl_st (ka_cl k1)) Active) eqn:Ea; [apply cstate_eqb_true, Ea|destruct H; reflexivity]. }
+        split; [exact A6|]. split; [exact A7|]. split.
+        { exists [KoState (cl_now (ka_cl k1)) (cl_st (ka_cl k1))]. split; [reflexivity|]. right. rewrite A6. split; [reflexivity|]. rewrite <- A1. apply cstate_eqb_false, Eq. }
+        split; [congruence|]. split; [congruence|]. intros _ _ _ _. cbn. split; reflexivity.
+Qed.
+
+(* ------------------------------------------------------------------ ka_excl is never reset *)
+Lemma ab2_excl k : ka_excl (ab2 k) = ka_excl k.
+Proof. unfold ab2. destruct (is_some _); reflexivity. Qed.
+Lemma ab3_excl k st : ka_excl k = true -> ka_excl (ab3 k st) = true.
+Proof.
+  intros H. unfold ab3, ka_take_change. cbv zeta. destruct (_ || _); [exact H|].
+  cbn [ka_busy ka_chan]. cbn. destruct (ka_busy k); [destruct (ka_chan k)|]; cbn; auto.
+Qed.
+Lemma absorb_excl k r : ka_excl k = true -> ka_excl (fst (ka_absorb cfg k r)) = true.
+Proof.
+  intros H. destruct r as [s' os]. rewrite absorb_eq. cbv zeta.
+  assert (H2 : ka_excl (ab2 (ab1 k s' os)) = true) by (rewrite ab2_excl, (a1_excl _ _ _ _ (ab1_facts k s' os)); exact H).
+  destruct (cstate_eqb _ _); cbn [fst]; [exact H2|apply ab3_excl, H2].
+Qed.
+Lemma start_ping_excl k : ka_excl k = true -> ka_excl (fst (ka_start_ping cfg k)) = true.
+Proof.
+  intros H. unfold ka_start_ping. cbv zeta.
+  match goal with |- context [ka_absorb cfg ?K ?R] => pose proof (absorb_excl K R H) as H1; destruct (ka_absorb cfg K R) as [k1 o1] end.
+  exact H1.
+Qed.
+Lemma settle_excl : forall f k, ka_excl k = true -> ka_excl (fst (ka_settle f cfg k)) = true.
+Proof.
+  induction f as [|f IH]; intros k H; cbn [ka_settle]; [reflexivity|].
+  destruct (_ || _); [exact H|]. destruct (ka_chan k) as [st|], (ka_tick k); try exact H; try reflexivity.
+  - apply IH. exact H.
+  - match goal with |- context [ka_start_ping cfg ?K] => pose proof (start_ping_excl K H) as H1; destruct (ka_start_ping cfg K) as [k1 o1] end.
+    cbn [fst] in H1.
+    pose proof (IH k1 H1) as H2. destruct (ka_settle f cfg k1) as [k2 o2]. exact H2.
+Qed.
+Lemma do_excl k ev : ka_excl k = true -> ka_excl (fst (ka_do cfg k ev)) = true.
+Proof.
+  intros H. unfold ka_do.
+  pose proof (absorb_excl k (cl_step cfg (ka_cl k) ev) H) as H1. destruct (ka_absorb cfg k _) as [k1 o1]. cbn [fst] in H1.
+  pose proof (settle_excl 4 k1 H1) as H2. destruct (ka_settle 4 cfg k1) as [k2 o2]. exact H2.
+Qed.
+
+Lemma advance_excl target : forall f k, ka_excl k = true -> ka_excl (fst (ka_advance f cfg k target)) = true.
+Proof.
+  induction f as [|f IH]; intros k H; cbn [ka_advance]; [reflexivity|]. cbv zeta.
+  assert (Hgo : forall d, ka_excl (fst (ka_do cfg k (CAdv d))) = true) by (intros d; apply do_excl, H).
+  assert (Hrec : forall d (b : bool), ka_excl (fst (let '(k1, o1) := ka_do cfg k (CAdv d) in
+              let k1 := if b then k1 <| ka_excl := true |> else k1 in
+              let '(k2, o2) := ka_advance f cfg k1 target in (k2, o1 ++ o2))) = true).
+  { intros d b. specialize (Hgo d). destruct (ka_do cfg k (CAdv d)) as [k1 o1]. cbn [fst] in Hgo. cbv zeta.
+    assert (H1 : ka_excl (if b then k1 <| ka_excl := true |> else k1) = true) by (destruct b; [reflexivity|exact Hgo]).
+    pose proof (IH _ H1) as H2. destruct (ka_advance f cfg _ target) as [k2 o2]. exact H2. }
+  assert (Hrec' : forall d, ka_excl (fst (let '(k1, o1) := ka_do cfg k (CAdv d) in
+              let '(k2, o2) := ka_advance f cfg k1 target in (k2, o1 ++ o2))) = true).
+  { intros d. specialize (Hgo d). destruct (ka_do cfg k (CAdv d)) as [k1 o1]. cbn [fst] in Hgo.
+    pose proof (IH _ Hgo) as H2. destruct (ka_advance f cfg _ target) as [k2 o2]. exact H2. }
+  assert (Htick : forall t, ka_excl (fst (let '(k1, o1) := ka_absorb cfg k (cl_step cfg (ka_cl k) (CAdv (t - cl_now (ka_cl k)))) in
+            let k1 := k1 <| ka_next := Some (t + ka_period cfg) |> in
+            let '(k2, o2) := if is_some (ka_busy k1) then (k1 <| ka_tick := true |>, [])
+                             else ka_settle 4 cfg (k1 <| ka_tick := true |>) in
+            let '(k3, o3) := ka_advance f cfg k2 target in (k3, o1 ++ o2 ++ o3))) = true).
+  { intros t. pose proof (absorb_excl k (cl_step cfg (ka_cl k) (CAdv (t - cl_now (ka_cl k)))) H) as H1.
+    destruct (ka_absorb cfg k _) as [k1 o1]. cbn [fst] in H1. cbv zeta.
+    assert (H2 : ka_excl (fst (if is_some (ka_busy (k1 <| ka_next := Some (t + ka_period cfg) |>))
+                    then (k1 <| ka_next := Some (t + ka_period cfg) |> <| ka_tick := true |>, [])
+                    else ka_settle 4 cfg (k1 <| ka_next := Some (t + ka_period cfg) |> <| ka_tick := true |>))) = true).
+    { destruct (is_some _); [exact H1|]. apply settle_excl. exact H1. }
+    destruct (if is_some _ then _ else _) as [k2 o2]. cbn [fst] in H2.
+    pose proof (IH _ H2) as H3. destruct (ka_advance f cfg k2 target) as [k3 o3]. exact H3. }
+  destruct (if ka_done k then None else ka_next k) as [t|].
+  - destruct (cl_deadline (ka_cl k)) as [c|].
+    + destruct (c <=? t).
+      * destruct (target <? c); [apply Hgo|apply Hrec].
+      * destruct (target <? t); [apply Hgo|apply Htick].
+    + destruct (target <? t); [apply Hgo|apply Htick].
+  - destruct (cl_deadline (ka_cl k)) as [c|]; [|apply Hgo].
+    destruct (target <? c); [apply Hgo|apply Hrec'].
+Qed.
+
+(* ------------------------------------------------------------------ the loop's select *)
+Lemma KInv'_ext k k' : ka_cl k' = ka_cl k -> ka_seen k' = ka_seen k -> ka_done k' = ka_done k -> ka_next k' = ka_next k ->
+  ka_chan k' = ka_chan k -> (ka_tick k' = true -> ka_tick k = true) -> KInv' k -> KInv' k'.
+Proof.
+  intros E1 E2 E3 E4 E5 E6 [Hs Hl]. split; [congruence|]. rewrite E3. intros Hd. destruct (Hl Hd) as (L1 & L2 & L3).
+  split; [congruence|]. split; [intros t Ht; rewrite E1; apply L2; congruence|].
+  unfold TickerOK in *. rewrite E5, E4, E2. destruct (ka_chan k); [exact L3|]. intros [H|H]; apply L3; auto.
+Qed.
+
+Lemma start_ping_spec k : KInv' k -> ka_excl (fst (ka_start_ping cfg k)) = false ->
+  KInv' (fst (ka_start_ping cfg k)) /\
+  cl_now (ka_cl (fst (ka_start_ping cfg k))) = cl_now (ka_cl k) /\
+  Same (ka_cl k) (ka_cl (fst (ka_start_ping cfg k))) /\
+  ka_seen (fst (ka_start_ping cfg k)) = ka_seen k /\
+  (exists xs, snd (ka_start_ping cfg k) = KoPing (cl_now (ka_cl k)) (INTERNAL + ka_count k) :: map KoCl xs) /\
+  ka_excl k = false /\ (ka_done k = true -> ka_done (fst (ka_start_ping cfg k)) = true).
+Proof.
+  intros Hk. unfold ka_start_ping. cbv zeta.
+  destruct (ping_step cfg (ka_cl k) (INTERNAL + ka_count k)) as [P1 P2].
+  destruct (cl_step cfg (ka_cl k) (CCall (INTERNAL + ka_count k) APing)) as [s' os]. cbn [fst] in P1, P2.
+  set (kp := k <| ka_busy := Some (INTERNAL + ka_count k) |> <| ka_count := ka_count k + 1 |>).
+  assert (Hkp : KInv' kp) by (apply (KInv'_ext k); try reflexivity; auto).
+  assert (Hnow : forall t, ka_done kp = false -> ka_next kp = Some t -> cl_now s' <= t).
+  { intros t Hd Ht. rewrite P2. destruct Hk as [_ Hl]. destruct (Hl Hd) as (_ & L2 & _). apply L2, Ht. }
+  pose proof (absorb_spec kp s' os Hkp Hnow) as A.
+  destruct (ka_absorb cfg kp (s', os)) as [k1 o1]. cbn [fst snd] in *. intros Hx.
+  destruct (A Hx) as (A1 & A2 & A3 & (chg & A4 & A5) & A6 & A7 & _).
+  split; [exact A1|]. split; [congruence|]. split; [eapply Same_trans; eassumption|].
+  assert (Es : ka_seen k1 = ka_seen k).
+  { destruct A1 as [-> _]. destruct A3 as [-> _]. destruct P1 as [-> _]. destruct Hk as [-> _]. reflexivity. }
+  split; [exact Es|]. split.
+  - exists (user_outs os). destruct A5 as [[-> _]|[_ Hne]]; [rewrite A4, app_nil_r; reflexivity|]. destruct (Hne Es).
+  - split; [exact A7|exact A6].
+Qed.
+
+Lemma settle_stop k : ka_excl k = false -> KInv' k -> (ka_done k = false -> Settled k) ->
+  KInv cfg k /\ cl_now (ka_cl k) = cl_now (ka_cl k) /\ Same (ka_cl k) (ka_cl k) /\ ka_seen k = ka_seen k /\
+  no_chg [] /\ (forall t id, In (KoPing t id) [] -> t = cl_now (ka_cl k) /\ ka_seen k = Active) /\
+  ka_excl k = false /\ (ka_done k = true -> ka_done k = true) /\ (ka_done k = true \/ Settled k -> @nil ka_out = []).
+Proof.
+  intros Hx Hk Hst. split; [split; assumption|]. split; [reflexivity|]. split; [apply Same_refl|]. split; [reflexivity|].
+  split; [apply no_chg_nil|]. split; [intros t id []|]. auto.
+Qed.
+
+Lemma settle_spec : forall f k, KInv' k -> ka_excl (fst (ka_settle f cfg k)) = false ->
+  KInv cfg (fst (ka_settle f cfg k)) /\
+  cl_now (ka_cl (fst (ka_settle f cfg k))) = cl_now (ka_cl k) /\
+  Same (ka_cl k) (ka_cl (fst (ka_settle f cfg k))) /\
+  ka_seen (fst (ka_settle f cfg k)) = ka_seen k /\
+  no_chg (snd (ka_settle f cfg k)) /\
+  (forall t id, In (KoPing t id) (snd (ka_settle f cfg k)) -> t = cl_now (ka_cl k) /\ ka_seen k = Active) /\
+  ka_excl k = false /\ (ka_done k = true -> ka_done (fst (ka_settle f cfg k)) = true) /\
+  (ka_done k = true \/ Settled k -> snd (ka_settle f cfg k) = []).
+Proof.
+  induction f as [|f IH]; intros k Hk; cbn [ka_settle]; [intros Hx; discriminate Hx|].
+  destruct (ka_done k || is_some (ka_busy k)) eqn:Eor.
+  { cbn [fst snd]. intros Hx. apply settle_stop; [exact Hx|exact Hk|]. intros Hd Hb. rewrite Hd, Hb in Eor. discriminate Eor. }
+  apply orb_false_elim in Eor. destruct Eor as [Hd Hb0].
+  assert (Hb : ka_busy k = None) by (destruct (ka_busy k); [discriminate Hb0|reflexivity]). clear Hb0.
+  destruct Hk as [Hs Hl]. destruct (Hl Hd) as (L1 & L2 & L3). unfold TickerOK in L3.
+  destruct (ka_chan k) as [st|] eqn:Hc; destruct (ka_tick k) eqn:Ht; cbn [fst snd].
+  - intros Hx. discriminate Hx.
+  - (* take the state change *)
+    assert (Hk1 : KInv' (ka_take_change cfg k st)).
+    { unfold ka_take_change. split; [exact Hs|]. intros _. cbn. split; [exact L1|]. split.
+      - intros t E. cbn in E |- *. destruct (cstate_eqb st Active); [|discriminate E]. injection E as <-. lia.
+      - unfold TickerOK. cbn. intros [H|H]; [|discriminate H]. rewrite <- L3.
+        destruct (cstate_eqb st Active) eqn:Ea; [apply cstate_eqb_true, Ea|destruct H; reflexivity]. }
+    intros Hx. destruct (IH _ Hk1 Hx) as (I1 & I2 & I3 & I4 & I5 & I6 & I7 & I8 & I9).
+    split; [exact I1|]. split; [exact I2|]. split; [exact I3|]. split; [exact I4|]. split; [exact I5|]. split; [exact I6|].
+    split; [exact I7|]. split; [congruence|]. intros [H|H]; [congruence|]. destruct (H Hb) as [H1 _]. congruence.
+  - (* the pending tick: a ping *)
+    assert (Hk0 : KInv' (k <| ka_tick := false |>)).
+    { apply (KInv'_ext k); try reflexivity; [discriminate|]. split; [exact Hs|exact Hl]. }
+    pose proof (start_ping_spec _ Hk0) as P.
+    match goal with |- context [ka_start_ping cfg ?K] => destruct (ka_start_ping cfg K) as [k1 o1] end.
+    cbn [fst snd] in P.
+    pose proof (IH k1) as IH1. pose proof (settle_excl f k1) as Hst. destruct (ka_settle f cfg k1) as [k2 o2]. cbn [fst snd] in *.
+    intros Hx.
+    assert (Hx1 : ka_excl k1 = false) by (destruct (ka_excl k1); [rewrite Hst in Hx by reflexivity; discriminate Hx|reflexivity]).
+    destruct (P Hx1) as (P1 & P2 & P3 & P4 & (xs & P5) & P6 & P7). cbn in P2, P3, P4, P5, P6, P7.
+    destruct (IH1 P1 Hx) as (I1 & I2 & I3 & I4 & I5 & I6 & I7 & I8 & I9).
+    assert (Ea : ka_seen k = Active) by (apply L3; right; reflexivity).
+    split; [exact I1|]. split; [congruence|]. split; [eapply Same_trans; eassumption|]. split; [congruence|].
+    split; [subst o1; apply no_chg_app; [|exact I5]; intros t st' [E|Hi]; [discriminate E|destruct (no_chg_cl xs t st' Hi)]|].
+    split.
+    { intros t id Hi. apply in_app_or in Hi. destruct Hi as [Hi|Hi].
+      - subst o1. destruct Hi as [E|Hi]; [|destruct (no_ping_cl xs t id Hi)]. injection E as <- _. split; [reflexivity|exact Ea].
+      - destruct (I6 t id Hi) as [-> _]. split; [exact P2|exact Ea]. }
+    split; [exact P6|]. split; [congruence|]. intros [H|H]; [congruence|]. destruct (H Hb) as [_ H1]. congruence.
+  - intros Hx. apply settle_stop; [exact Hx|split; [exact Hs|exact Hl]|]. intros _ _. split; assumption.
+Qed.
+
+(* ------------------------------------------------------------------ one event of the client *)
+Lemma internal_ret_in b os r : internal_ret (Some b) os = Some r -> exists t, In (CoRet t b r) os.
+Proof.
+  unfold internal_ret. induction os as [|o os IH]; intros H; [discriminate H|]. rewrite bind_cons in H.
+  destruct o as [t dg|t id r0|t sub tp pl q rt dp mid|t]; cbn [app] in H;
+    try (destruct (IH H) as [t' Hi]; exists t'; right; exact Hi).
+  destruct (id =? b) eqn:E; cbn [app] in H.
+  - injection H as ->. apply N.eqb_eq in E. subst id. exists t. left. reflexivity.
+  - destruct (IH H) as [t' Hi]. exists t'. right. exact Hi.
+Qed.
+
+Lemma do_spec k ev hc :
+  KInv' k ->
+  (forall t, ka_done k = false -> ka_next k = Some t -> cl_now (fst (cl_step cfg (ka_cl k) ev)) <= t) ->
+  hc <= cl_now (fst (cl_step cfg (ka_cl k) ev)) ->
+  ka_excl (fst (ka_do cfg k ev)) = false ->
+  KInv cfg (fst (ka_do cfg k ev)) /\
+  cl_now (ka_cl (fst (ka_do cfg k ev))) = cl_now (fst (cl_step cfg (ka_cl k) ev)) /\
+  Same (fst (cl_step cfg (ka_cl k) ev)) (ka_cl (fst (ka_do cfg k ev))) /\
+  good (ka_seen k) hc (snd (ka_do cfg k ev)) /\
+  last_st (ka_seen k) (snd (ka_do cfg k ev)) = ka_seen (fst (ka_do cfg k ev)) /\
+  chg_at (snd (ka_do cfg k ev)) (cl_now (fst (cl_step cfg (ka_cl k) ev))) /\
+  (ka_seen (fst (ka_do cfg k ev)) = ka_seen k -> no_chg (snd (ka_do cfg k ev))) /\
+  ka_excl k = false /\
+  ((ka_done k = false -> Settled k) ->
+   (internal_ret (ka_busy k) (snd (cl_step cfg (ka_cl k) ev)) = Some ROk -> canc (fst (cl_step cfg (ka_cl k) ev))) ->
+   no_ping (snd (ka_do cfg k ev))).
+Proof.
+  intros Hk. unfold ka_do. destruct (cl_step cfg (ka_cl k) ev) as [s' os]. cbn [fst snd]. intros Hnow Hhc.
+  pose proof (absorb_spec k s' os Hk Hnow) as A. destruct (ka_absorb cfg k (s', os)) as [k1 o1]. cbn [fst snd] in A.
+  pose proof (settle_spec 4 k1) as S. pose proof (settle_excl 4 k1) as Hst.
+  destruct (ka_settle 4 cfg k1) as [k2 o2]. cbn [fst snd] in *. intros Hx.
+  assert (Hx1 : ka_excl k1 = false) by (destruct (ka_excl k1); [rewrite Hst in Hx by reflexivity; discriminate Hx|reflexivity]).
+  destruct (A Hx1) as (A1 & A2 & A3 & (chg & A4 & A5) & A6 & A7 & A8).
+  destruct (S A1 Hx) as (S1 & S2 & S3 & S4 & S5 & S6 & S7 & S8 & S9).
+  assert (Hc : chg = [] /\ ka_seen k1 = ka_seen k \/ chg = [KoState (cl_now s') (ka_seen k1)]).
+  { destruct A5 as [H|[H _]]; [left; exact H|right; exact H]. }
+  assert (Hp : forall t id, In (KoPing t id) o2 -> t = cl_now s' /\ ka_seen k1 = Active).
+  { intros t id Hi. destruct (S6 t id Hi) as [-> E]. split; assumption. }
+  destruct (good_do (user_outs os) chg o2 (ka_seen k) (ka_seen k1) hc (cl_now s') Hc S5 Hp Hhc) as (G1 & G2 & G3).
+  subst o1.
+  split; [exact S1|]. split; [congruence|]. split; [eapply Same_trans; eassumption|]. split; [exact G1|].
+  split; [congruence|]. split; [exact G3|]. split.
+  { intros Es. apply no_chg_app; [|exact S5]. apply no_chg_app; [apply no_chg_cl|].
+    destruct A5 as [[-> _]|[_ Hne]]; [apply no_chg_nil|]. destruct Hne. congruence. }
+  split; [exact A7|]. intros Hset Hr.
+  assert (E2 : o2 = []).
+  { apply S9. destruct (ka_done k1) eqn:Hd1; [left; reflexivity|right]. apply A8; [reflexivity| |exact Hr].
+    apply Hset. exact (bool_contra _ _ A6 eq_refl). }
+  subst o2. rewrite app_nil_r. apply no_ping_app; [apply no_ping_cl|].
+  destruct Hc as [[-> _]| ->]; [apply no_ping_nil|]. intros t id [E|[]]. discriminate E.
+Qed.
+
+(* an advance of the client: no ping starts (a timer does not complete the loop's ping successfully) *)
+Lemma do_adv_spec k d hc :
+  KInv cfg k -> (forall t, ka_done k = false -> ka_next k = Some t -> cl_now (ka_cl k) + d <= t) ->
+  hc <= cl_now (ka_cl k) + d ->
+  ka_excl (fst (ka_do cfg k (CAdv d))) = false ->
+  KInv cfg (fst (ka_do cfg k (CAdv d))) /\
+  cl_now (ka_cl (fst (ka_do cfg k (CAdv d)))) = cl_now (ka_cl k) + d /\
+  good (ka_seen k) hc (snd (ka_do cfg k (CAdv d))) /\
+  last_st (ka_seen k) (snd (ka_do cfg k (CAdv d))) = ka_seen (fst (ka_do cfg k (CAdv d))) /\
+  chg_at (snd (ka_do cfg k (CAdv d))) (cl_now (ka_cl k) + d) /\
+  no_ping (snd (ka_do cfg k (CAdv d))) /\
+  ka_excl k = false /\
+  (d = 0 -> TK (ka_cl k) (cl_now (ka_cl k)) ->
+   TK (ka_cl (fst (ka_do cfg k (CAdv d)))) (cl_now (ka_cl k)) /\ no_chg (snd (ka_do cfg k (CAdv d)))).
+Proof.
+  intros [Hk Hset] Hnow Hhc Hx.
+  pose proof (step_end_now cfg (ka_cl k) d) as En.
+  assert (Hnow' : forall t, ka_done k = false -> ka_next k = Some t -> cl_now (fst (cl_step cfg (ka_cl k) (CAdv d))) <= t)
+    by (intros t Hd Ht; rewrite En; apply Hnow; assumption).
+  assert (Hhc' : hc <= cl_now (fst (cl_step cfg (ka_cl k) (CAdv d)))) by (rewrite En; exact Hhc).
+  destruct (do_spec k (CAdv d) hc Hk Hnow' Hhc' Hx) as (D1 & D2 & D3 & D4 & D5 & D6 & D7 & D8 & D9).
+  rewrite En in D2, D6.
+  split; [exact D1|]. split; [exact D2|]. split; [exact D4|]. split; [exact D5|]. split; [exact D6|]. split.
+  { apply D9; [exact Hset|]. intros Hr. apply adv_rok.
+    destruct (ka_busy k) as [b|]; [|discriminate Hr]. destruct (internal_ret_in _ _ _ Hr) as [t Hi]. exists t, b. exact Hi. }
+  split; [exact D8|]. intros -> Htk.
+  pose proof (adv0_same cfg (ka_cl k) Htk) as Hs0.
+  assert (Hs2 : Same (ka_cl k) (ka_cl (fst (ka_do cfg k (CAdv 0))))) by (eapply Same_trans; eassumption).
+  split; [eapply TK_Same; eassumption|]. apply D7.
+  destruct D1 as [[-> _] _]. destruct Hs2 as [-> _]. destruct Hk as [-> _]. reflexivity.
+Qed.
+
+(* ------------------------------------------------------------------ ka_advance *)
+Definition AdvOk (k : ka_state) (r : ka_state * list ka_out) : Prop :=
+  ka_excl (fst r) = false ->
+  KInv cfg (fst r) /\ good (ka_seen k) (cl_now (ka_cl k)) (snd r) /\
+  (TK (ka_cl k) (cl_now (ka_cl k)) -> chg_gt (snd r) (cl_now (ka_cl k))) /\ ka_excl k = false.
+
+Lemma adv_final k d : KInv cfg k -> (forall t, ka_done k = false -> ka_next k = Some t -> cl_now (ka_cl k) + d <= t) ->
+  AdvOk k (ka_do cfg k (CAdv d)).
+Proof.
+  intros Hk Hnow Hx.
+  destruct (do_adv_spec k d (cl_now (ka_cl k)) Hk Hnow ltac:(lia) Hx) as (D1 & D2 & D3 & D4 & D5 & D6 & D7 & D8).
+  split; [exact D1|]. split; [exact D3|]. split; [|exact D7]. intros Htk.
+  destruct (N.eq_dec d 0) as [E|E].
+  - destruct (D8 E Htk) as [_ H]. apply no_chg_gt, H.
+  - intros t st Hi. rewrite (D5 t st Hi). lia.
+Qed.
+
+Lemma adv_rec f target k d : KInv cfg k -> (forall t, ka_done k = false -> ka_next k = Some t -> cl_now (ka_cl k) + d <= t) ->
+  (forall k1, KInv cfg k1 -> AdvOk k1 (ka_advance f cfg k1 target)) ->
+  AdvOk k (let '(k1, o1) := ka_do cfg k (CAdv d) in let '(k2, o2) := ka_advance f cfg k1 target in (k2, o1 ++ o2)).
+Proof.
+  intros Hk Hnow IH.
+  pose proof (do_adv_spec k d (cl_now (ka_cl k)) Hk Hnow ltac:(lia)) as D.
+  destruct (ka_do cfg k (CAdv d)) as [k1 o1]. cbn [fst snd] in D.
+  pose proof (IH k1) as I. pose proof (advance_excl target f k1) as Hst.
+  destruct (ka_advance f cfg k1 target) as [k2 o2]. unfold AdvOk in *. cbn [fst snd] in *. intros Hx.
+  assert (Hx1 : ka_excl k1 = false) by (destruct (ka_excl k1); [rewrite Hst in Hx by reflexivity; discriminate Hx|reflexivity]).
+  destruct (D Hx1) as (D1 & D2 & D3 & D4 & D5 & D6 & D7 & D8).
+  destruct (I D1 Hx) as (I1 & I2 & I3 & _). rewrite D2 in I2, I3.
+  split; [exact I1|]. split; [|split; [|exact D7]].
+  - apply (good_app o1 (ka_seen k) (cl_now (ka_cl k)) o2 (cl_now (ka_cl k) + d)); [exact D3|rewrite D4; exact I2|exact D5|lia|].
+    intros t id Hi. destruct (D6 t id Hi).
+  - intros Htk. apply chg_gt_app.
+    + destruct (N.eq_dec d 0) as [E|E].
+      * destruct (D8 E Htk) as [_ H]. apply no_chg_gt, H.
+      * intros t st Hi. rewrite (D5 t st Hi). lia.
+    + destruct (N.eq_dec d 0) as [E|E].
+      * destruct (D8 E Htk) as [H _]. subst d. rewrite N.add_0_r in I3. apply I3. exact H.
+      * intros t st Hi. pose proof (good_chg_ge _ _ _ I2 t st Hi). lia.
+Qed.
+
+Lemma adv_rec_b f target k d (b : bool) : KInv cfg k -> (forall t, ka_done k = false -> ka_next k = Some t -> cl_now (ka_cl k) + d <= t) ->
+  (forall k1, KInv cfg k1 -> AdvOk k1 (ka_advance f cfg k1 target)) ->
+  AdvOk k (let '(k1, o1) := ka_do cfg k (CAdv d) in
+           let k1 := if b then k1 <| ka_excl := true |> else k1 in
+           let '(k2, o2) := ka_advance f cfg k1 target in (k2, o1 ++ o2)).
+Proof.
+  intros Hk Hnow IH. destruct b; [|exact (adv_rec f target k d Hk Hnow IH)].
+  destruct (ka_do cfg k (CAdv d)) as [k1 o1]. cbv zeta.
+  pose proof (advance_excl target f (k1 <| ka_excl := true |>) eq_refl) as H.
+  destruct (ka_advance f cfg (k1 <| ka_excl := true |>) target) as [k2 o2]. intros Hx. cbn [fst] in *. congruence.
+Qed.
+
+Lemma absorb_quiet k s' : cl_cancelled s' = None -> cl_st s' = ka_seen k ->
+  ka_absorb cfg k (s', []) = (k <| ka_cl := s' |>, []).
+Proof.
+  intros Ec Es. rewrite absorb_eq. cbv zeta. unfold ab1. cbv zeta.
+  replace (internal_ret (ka_busy (k <| ka_cl := s' |>)) []) with (@None cres)
+    by (destruct (ka_busy (k <| ka_cl := s' |>)); reflexivity).
+  unfold ab2. cbn. rewrite Ec. cbn. rewrite Es, cstate_eqb_refl. reflexivity.
+Qed.
+
+Lemma tick_absorb k t : KInv' k -> ka_done k = false -> ka_next k = Some t -> before_deadline (ka_cl k) t ->
+  ka_absorb cfg k (cl_step cfg (ka_cl k) (CAdv (t - cl_now (ka_cl k)))) = (k <| ka_cl := ka_cl k <| cl_now := t |> |>, []).
+Proof.
+  intros [Hs Hl] Hd Ht Hb. destruct (Hl Hd) as (L1 & L2 & _). specialize (L2 t Ht).
+  assert (E : cl_now (ka_cl k) + (t - cl_now (ka_cl k)) = t) by lia.
+  rewrite quiet_adv by (rewrite E; exact Hb). rewrite E. apply absorb_quiet; [exact L1|symmetry; exact Hs].
+Qed.
+
+Lemma tick_settle kt : KInv' kt ->
+  ka_excl (fst (if is_some (ka_busy kt) then (kt, []) else ka_settle 4 cfg kt)) = false ->
+  KInv cfg (fst (if is_some (ka_busy kt) then (kt, []) else ka_settle 4 cfg kt)) /\
+  cl_now (ka_cl (fst (if is_some (ka_busy kt) then (kt, []) else ka_settle 4 cfg kt))) = cl_now (ka_cl kt) /\
+  Same (ka_cl kt) (ka_cl (fst (if is_some (ka_busy kt) then (kt, []) else ka_settle 4 cfg kt))) /\
+  ka_seen (fst (if is_some (ka_busy kt) then (kt, []) else ka_settle 4 cfg kt)) = ka_seen kt /\
+  no_chg (snd (if is_some (ka_busy kt) then (kt, []) else ka_settle 4 cfg kt)) /\
+  (forall t id, In (KoPing t id) (snd (if is_some (ka_busy kt) then (kt, []) else ka_settle 4 cfg kt)) ->
+     t = cl_now (ka_cl kt) /\ ka_seen kt = Active) /\
+  ka_excl kt = false.
+Proof.
+  intros Hk. destruct (ka_busy kt) as [b|] eqn:Hb; cbn [is_some].
+  - cbn [fst snd]. intros Hx. split; [split; [exact Hk|intros _ E; congruence]|]. split; [reflexivity|].
+    split; [apply Same_refl|]. split; [reflexivity|]. split; [apply no_chg_nil|]. split; [intros t id []|exact Hx].
+  - intros Hx. destruct (settle_spec 4 kt Hk Hx) as (S1 & S2 & S3 & S4 & S5 & S6 & S7 & _). auto 10.
+Qed.
+
+Lemma adv_tick f target k t : KInv cfg k -> ka_done k = false -> ka_next k = Some t -> before_deadline (ka_cl k) t ->
+  (forall k1, KInv cfg k1 -> AdvOk k1 (ka_advance f cfg k1 target)) ->
+  AdvOk k (let '(k1, o1) := ka_absorb cfg k (cl_step cfg (ka_cl k) (CAdv (t - cl_now (ka_cl k)))) in
+           let k1 := k1 <| ka_next := Some (t + ka_period cfg) |> in
+           let '(k2, o2) := if is_some (ka_busy k1) then (k1 <| ka_tick := true |>, [])
+                            else ka_settle 4 cfg (k1 <| ka_tick := true |>) in
+           let '(k3, o3) := ka_advance f cfg k2 target in (k3, o1 ++ o2 ++ o3)).
+Proof.
+  intros [Hk Hset] Hd Ht Hb IH. rewrite (tick_absorb k t Hk Hd Ht Hb). cbv beta iota zeta.
+  match goal with |- context [ka_settle 4 cfg ?K] => set (kt := K) end.
+  change (ka_busy (k <| ka_cl := ka_cl k <| cl_now := t |> |> <| ka_next := Some (t + ka_period cfg) |>)) with (ka_busy kt).
+  destruct Hk as [Hs Hl]. destruct (Hl Hd) as (L1 & L2 & L3). specialize (L2 t Ht).
+  assert (Hkt : KInv' kt).
+  { split; [exact Hs|]. intros _. split; [exact L1|]. split.
+    - intros t' E. cbn in E |- *. injection E as <-. lia.
+    - unfold TickerOK in *. cbn. destruct (ka_chan k); [exact L3|]. intros _. apply L3. left. congruence. }
+  pose proof (tick_settle kt Hkt) as S.
+  assert (Hst2 : ka_excl kt = true -> ka_excl (fst (if is_some (ka_busy kt) then (kt, []) else ka_settle 4 cfg kt)) = true).
+  { intros H. destruct (is_some _); [exact H|apply settle_excl, H]. }
+  destruct (if is_some (ka_busy kt) then (kt, []) else ka_settle 4 cfg kt) as [k2 o2]. cbn [fst snd] in S, Hst2.
+  pose proof (IH k2) as I. pose proof (advance_excl target f k2) as Hst.
+  destruct (ka_advance f cfg k2 target) as [k3 o3]. unfold AdvOk in *. cbn [fst snd app] in *. intros Hx.
+  assert (Hx2 : ka_excl k2 = false) by (destruct (ka_excl k2); [rewrite Hst in Hx by reflexivity; discriminate Hx|reflexivity]).
+  destruct (S Hx2) as (S1 & S2 & S3 & S4 & S5 & S6 & S7).
+  change (cl_now (ka_cl kt)) with t in S2, S6. change (ka_seen kt) with (ka_seen k) in S4, S6.
+  destruct (I S1 Hx) as (I1 & I2 & I3 & _). rewrite S2 in I2, I3. rewrite S4 in I2.
+  assert (Htk2 : TK (ka_cl k2) t).
+  { eapply TK_Same; [|exact S3]. intros tm Hi Hle. pose proof (before_deadline_TK _ _ Hb tm Hi). lia. }
+  split; [exact I1|]. split; [|split; [|exact S7]].
+  - apply (good_app o2 (ka_seen k) (cl_now (ka_cl k)) o3 t).
+    + apply good_pings; [exact S5|]. intros t' id Hi. destruct (S6 t' id Hi) as [-> E]. split; [exact L2|exact E].
+    + rewrite last_st_no_chg by exact S5. exact I2.
+    + apply no_chg_at, S5.
+    + exact L2.
+    + intros t' id Hi. destruct (S6 t' id Hi) as [-> _]. apply I3, Htk2.
+  - intros _. apply chg_gt_app; [apply no_chg_gt, S5|]. intros t' st Hi. pose proof (I3 Htk2 t' st Hi). lia.
+Qed.
+
+Lemma advance_spec target : forall f k, KInv cfg k -> AdvOk k (ka_advance f cfg k target).
+Proof.
+  induction f as [|f IH]; intros k Hk; cbn [ka_advance]; [intros Hx; discriminate Hx|]. cbv zeta.
+  assert (Hl : ka_done k = false -> forall t, ka_next k = Some t -> cl_now (ka_cl k) <= t).
+  { intros Hd. destruct Hk as [[_ Hl] _]. destruct (Hl Hd) as (_ & L2 & _). exact L2. }
+  destruct (ka_done k) eqn:Hd.
+  - (* the loop has returned: no ticker *)
+    destruct (cl_deadline (ka_cl k)) as [c|]; [|apply adv_final; [exact Hk|intros t E; rewrite Hd in E; discriminate E]].
+    destruct (target <? c); [apply adv_final|apply adv_rec]; try exact Hk; try exact IH; intros t E; rewrite Hd in E; discriminate E.
+  - destruct (ka_next k) as [t|] eqn:Ht.
+    + specialize (Hl eq_refl t eq_refl).
+      destruct (cl_deadline (ka_cl k)) as [c|] eqn:Hc.
+      * destruct (c <=? t) eqn:Ect.
+        -- apply N.leb_le in Ect. destruct (target <? c) eqn:Etc.
+           ++ apply N.ltb_lt in Etc. apply adv_final; [exact Hk|]. intros t' _ E. rewrite Ht in E. injection E as <-. lia.
+           ++ apply adv_rec_b; [exact Hk| |exact IH]. intros t' _ E. rewrite Ht in E. injection E as <-. lia.
+        -- apply N.leb_gt in Ect. destruct (target <? t) eqn:Ett.
+           ++ apply N.ltb_lt in Ett. apply adv_final; [exact Hk|]. intros t' _ E. rewrite Ht in E. injection E as <-. lia.
+           ++ apply adv_tick; [exact Hk|exact Hd|exact Ht| |exact IH]. unfold before_deadline. rewrite Hc. exact Ect.
+      * cbn [andb]. destruct (target <? t) eqn:Ett.
+        -- apply N.ltb_lt in Ett. apply adv_final; [exact Hk|]. intros t' _ E. rewrite Ht in E. injection E as <-. lia.
+        -- apply adv_tick; [exact Hk|exact Hd|exact Ht| |exact IH]. unfold before_deadline. rewrite Hc. exact I.
+    + destruct (cl_deadline (ka_cl k)) as [c|]; [|apply adv_final; [exact Hk|intros t _ E; rewrite Ht in E; discriminate E]].
+      destruct (target <? c); [apply adv_final|apply adv_rec]; try exact Hk; try exact IH; intros t _ E; rewrite Ht in E; discriminate E.
+Qed.
+
+(* ------------------------------------------------------------------ one step of the wrapper *)
+Lemma step_spec k ev : KInv cfg k -> ka_excl (fst (ka_step cfg k ev)) = false ->
+  KInv cfg (fst (ka_step cfg k ev)) /\ exists hc, good (ka_seen k) hc (snd (ka_step cfg k ev)).
+Proof.
+  intros Hk. unfold ka_step. rewrite ka_nz.
+  assert (Huser : (forall d, ev <> CAdv d) ->
+    ka_excl (fst (ka_do cfg (k <| ka_victims := ka_victims k ++ stolen_pingresp k ev |>) ev)) = false ->
+    KInv cfg (fst (ka_do cfg (k <| ka_victims := ka_victims k ++ stolen_pingresp k ev |>) ev)) /\
+    exists hc, good (ka_seen k) hc (snd (ka_do cfg (k <| ka_victims := ka_victims k ++ stolen_pingresp k ev |>) ev))).
+  { intros Hev Hx. set (kv := k <| ka_victims := ka_victims k ++ stolen_pingresp k ev |>) in *.
+    destruct Hk as [Hk' _].
+    assert (Hkv : KInv' kv) by (apply (KInv'_ext k); try reflexivity; auto).
+    assert (Hnow : forall t, ka_done kv = false -> ka_next kv = Some t -> cl_now (fst (cl_step cfg (ka_cl kv) ev)) <= t).
+    { intros t Hd Ht. pose proof (user_step_now cfg (ka_cl kv) ev Hev) as H1.
+      destruct Hkv as [_ Hl]. destruct (Hl Hd) as (_ & L2 & _). specialize (L2 t Ht). lia. }
+    destruct (do_spec kv ev 0 Hkv Hnow ltac:(lia) Hx) as (D1 & _ & _ & D4 & _).
+    split; [exact D1|]. exists 0. exact D4. }
+  destruct ev as [id a|dg|d].
+  - apply Huser. intros d E. discriminate E.
+  - apply Huser. intros d E. discriminate E.
+  - intros Hx. destruct (advance_spec (cl_now (ka_cl k) + d) (ka_fuel cfg k d) k Hk Hx) as (A1 & A2 & _).
+    split; [exact A1|]. exists (cl_now (ka_cl k)). exact A2.
+Qed.
+
+End Ka.
+
+Theorem KInv_step : forall cfg k ev, 0 < k_keepalive cfg -> KInv cfg k ->
+  ka_excl (fst (ka_step cfg k ev)) = false -> KInv cfg (fst (ka_step cfg k ev)).
+Proof. intros cfg k ev Hka Hk Hx. exact (proj1 (step_spec cfg Hka k ev Hk Hx)). Qed.
+
+Theorem ka_ping_only_when_active : forall cfg k ev, 0 < k_keepalive cfg -> KInv cfg k ->
+  ka_excl (fst (ka_step cfg k ev)) = false ->
+  forall t id, In (KoPing t id) (snd (ka_step cfg k ev)) ->
+    state_at (ka_seen k) (ko_changes (snd (ka_step cfg k ev))) t = Active.
+Proof.
+  intros cfg k ev Hka Hk Hx t id Hi. destruct (step_spec cfg Hka k ev Hk Hx) as [_ [hc G]].
+  eapply good_state_at; eassumption.
+Qed.
+
+(* every step of every history inside the sequential model *)
+Fixpoint ka_run_all (cfg : cl_cfg) (P : ka_state -> cl_event -> Prop) (k : ka_state) (evs : list cl_event) : Prop :=
+  match evs with
+  | [] => True
+  | ev :: evs' => P k ev /\ ka_run_all cfg P (fst (ka_step cfg k ev)) evs'
+  end.
+Definition pings_while_active (cfg : cl_cfg) (k : ka_state) (ev : cl_event) : Prop :=
+  forall t id, In (KoPing t id) (snd (ka_step cfg k ev)) ->
+    state_at (ka_seen k) (ko_changes (snd (ka_step cfg k ev))) t = Active.
+
+Lemma modelled_excl cfg k evs : ka_modelled cfg k evs = true -> ka_excl k = false.
+Proof.
+  destruct evs as [|ev evs']; cbn [ka_modelled]; intros H; [|apply andb_true_iff in H; destruct H as [H _]];
+    destruct (ka_excl k); (reflexivity || discriminate H).
+Qed.
+
+Lemma ka_history_inv cfg (Hka : 0 < k_keepalive cfg) : forall evs k, KInv cfg k -> ka_modelled cfg k evs = true ->
+  ka_run_all cfg (fun k ev => KInv cfg k /\ pings_while_active cfg k ev) k evs.
+Proof.
+  induction evs as [|ev evs' IH]; intros k Hk Hm; [exact I|]. cbn [ka_modelled] in Hm. apply andb_true_iff in Hm.
+  destruct Hm as [_ Hm]. pose proof (modelled_excl _ _ _ Hm) as Hx. cbn [ka_run_all]. split.
+  - split; [exact Hk|]. intros t id Hi. eapply ka_ping_only_when_active; eassumption.
+  - apply IH; [apply KInv_step; assumption|exact Hm].
+Qed.
+
+Theorem ka_ping_only_when_active_history : forall cfg evs, 0 < k_keepalive cfg ->
+  ka_modelled cfg ka_init evs = true -> ka_run_all cfg (pings_while_active cfg) ka_init evs.
+Proof.
+  intros cfg evs Hka Hm. pose proof (ka_history_inv cfg Hka evs ka_init (KInv_init cfg) Hm) as H.
+  clear Hm. revert H. generalize ka_init. induction evs as [|ev evs' IH]; intros k H; [exact I|]. cbn [ka_run_all] in *.
+  destruct H as [[_ H1] H2]. split; [exact H1|apply IH, H2].
+Qed.
+
+(* ================================================================== Part 3: a remark on clause (33,1) *)
+(* kmon_gap_sound ("inside the model the monitor never reports (33,1)") is not proved.  With the first version
+   of kmon_step it was FALSE: km_since was reset for a dead client only at the END of a step, so a single long
+   advance in which the loop's ping fails (5230: the group is cancelled, exit at 6130) and, much later, a timer of
+   a sleep transaction left over from an earlier Sleep still fires (21120: PINGREQ with client ID, state Awake) was
+   reported as a gap of an active client, while the same history with the advance split in two was accepted.
+   kmon_step now drops the marks after the exit time of a cancelled client; both forms are accepted.
+   (RetryDelay 700 ms so that no tick coincides with a retry timer.) *)
+Definition cfg33b : cl_cfg :=
+  {| k_cid := [99;108;49]; k_user := []; k_pass := []; k_keepalive := 2; k_ctimeout := 5000; k_rdelay := 700;
+     k_rcount := 2; k_clean := true; k_will := []; k_wmsg := []; k_wqos := 0; k_wretain := false; k_predef := [] |}.
+Lemma wf_cfg33b : wf_cl_cfg cfg33b.
+Proof. unfold wf_cl_cfg. repeat split; try (vm_compute; reflexivity); try (vm_compute; discriminate); repeat constructor; vm_compute; reflexivity. Qed.
+Definition h_dead_prefix : list cl_event :=
+  [CCall 1 AConnect; CAdv 10; G33 (Connack 0); CAdv 100; CCall 2 (ASleep 1000); CAdv 5; G33 (Disconnect 0); CAdv 1000;
+   G33 Pingresp; CAdv 5; CCall 3 (ASleep 20000); CAdv 5; CCall 4 AConnect; CAdv 5; G33 (Connack 0)].
+Example C33_gap_after_death_not_judged :
+  wf_cl_cfg cfg33b /\
+  ka_modelled cfg33b ka_init (h_dead_prefix ++ [CAdv 30000]) = true /\
+  kmon_run cfg33b ka_init kmon_init (h_dead_prefix ++ [CAdv 30000]) = [] /\
+  ka_modelled cfg33b ka_init (h_dead_prefix ++ [CAdv 6000; CAdv 24000]) = true /\
+  kmon_run cfg33b ka_init kmon_init (h_dead_prefix ++ [CAdv 6000; CAdv 24000]) = [] /\
+  List.last (fst (ka_run cfg33b ka_init (h_dead_prefix ++ [CAdv 30000]))) [] =
+    [KoPing 3130 1000000; KoCl (CoSn 3130 [2; 22]); KoCl (CoSn 3830 [2; 22]); KoCl (CoSn 4530 [2; 22]);
+          KoCl (CoExit 6130); KoCl (CoRet 6130 3 RCancelled); KoCl (CoSn 21120 [5; 22; 99; 108; 49]); KoState 21120 Awake].
+Proof. split; [exact wf_cfg33b|]. repeat split; vm_compute; reflexivity. Qed.
+
+(* the theorem applies to the ordinary history (three pings of the loop) *)
+Example C33_ordinary_pings_while_active : ka_run_all cfg33 (pings_while_active cfg33) ka_init h_ordinary.
+Proof. apply ka_ping_only_when_active_history; [reflexivity|vm_compute; reflexivity]. Qed.
+
+Print Assumptions C33_refuted_retransmission.
+Print Assumptions C33_refuted_ping_call_fails.
+Print Assumptions C33_ordinary.
+Print Assumptions C33_gap_after_death_not_judged.
+Print Assumptions KInv_init.
+Print Assumptions KInv_step.
+Print Assumptions ka_ping_only_when_active.
+Print Assumptions ka_ping_only_when_active_history.
